@@ -114,6 +114,7 @@ pub fn gen_pkg_named(rng: &mut Rng, idx: usize, prefix: &str, pkg_name: &str) ->
     for p in &plan[i] {
       let mut refs = vec![];
       let mut body_refs = vec![];
+      let mut overloaded = false;
       let others: Vec<String> = type_names.iter().filter(|n| **n != p.name).cloned().collect();
       let kind = match p.kind {
         "class" => {
@@ -169,15 +170,21 @@ pub fn gen_pkg_named(rng: &mut Rng, idx: usize, prefix: &str, pkg_name: &str) ->
             let b = others[rng.below(others.len())].clone();
             body_refs.push(b);
           }
+          // behind overload signatures the implementation's own signature is not part of the public API:
+          // what only it mentions is neither traced nor emitted
+          let overloads = if rng.chance(1, 3) { 1 + rng.below(2) } else { 0 };
+          overloaded = overloads > 0;
+          let mut impl_refs = vec![];
+          let sig_refs: &mut Vec<String> = if overloaded { &mut impl_refs } else { &mut refs };
           DeclKind::Function {
             f: Fn {
-              params: vec![Param { name: "a".into(), opt: false, rest: false, ty: Some(ty_with(rng, &others, &mut refs)), dflt: None }],
-              ret: Some(ty_with(rng, &others, &mut refs)),
+              params: vec![Param { name: "a".into(), opt: false, rest: false, ty: Some(ty_with(rng, &others, sig_refs)), dflt: None }],
+              ret: Some(ty_with(rng, &others, sig_refs)),
               is_async: false,
               is_gen: false,
               analysis: RetAnalysis::Single,
             },
-            overloads: 0,
+            overloads,
           }
         }
         _ => DeclKind::Var { is_const: true, ty: Some(ty_with(rng, &others, &mut refs)), init: Some(Init::Expr(Expr::Opaque("compute()".into()))) },
@@ -189,7 +196,7 @@ pub fn gen_pkg_named(rng: &mut Rng, idx: usize, prefix: &str, pkg_name: &str) ->
         .collect();
       // type parameters: constraint only, default only, or both, referring to other declarations
       let mut generics = String::new();
-      if matches!(p.kind, "class" | "interface" | "type" | "function") && !others.is_empty() && rng.chance(1, 3) {
+      if matches!(p.kind, "class" | "interface" | "type" | "function") && !overloaded && !others.is_empty() && rng.chance(1, 3) {
         let mut tp = String::from("<T");
         let form = rng.below(3);
         if form != 1 {
@@ -1069,8 +1076,34 @@ pub fn run_c11(tier: &str, seed: u64) -> Report {
       report.count(&format!("multi-package:cross-items:{}", mw.cross.len().min(8)));
     }
   }
+  {
+    let mut rr = Rng::new(seed ^ 0xC11_5EB);
+    crate::reqs::reqs_part(&mut report, &mut batch, &mut rr, if tier == "thorough" { 20000 } else { 2000 });
+  }
   batch.finish(&mut report, "C11");
   report
+}
+
+/// minimised inputs of repaired findings, checked first on every run
+pub fn regression_worlds() -> Vec<(&'static str, FcWorld)> {
+  let pkg = |files: &[(&str, &str)]| FcWorld {
+    main: "import * as a from \"jsr:@s/a@1\";\n".into(),
+    pkgs: vec![FcPackage {
+      name: "@s/a".into(),
+      version: "1.0.0".into(),
+      exports: [(".".to_string(), "./mod.ts".to_string())].into_iter().collect(),
+      files: files.iter().map(|(k, v)| (k.to_string(), v.to_string())).collect(),
+    }],
+  };
+  vec![(
+    "F32: a member of the default export requested after `Default.A` and `*`",
+    pkg(&[
+      ("/mod.ts", "import Foo from \"./a.ts\";\nexport type T1 = Foo.A;\nexport * from \"./b.ts\";\nexport * from \"./c.ts\";\n"),
+      ("/a.ts", "namespace Foo { export interface A { a: string } export interface B { b: string } }\nexport default Foo;\nexport const other: number = 1;\n"),
+      ("/b.ts", "import Foo from \"./a.ts\";\nexport type T3 = Foo.B;\n"),
+      ("/c.ts", "import * as ns from \"./a.ts\";\nexport type N = typeof ns;\n"),
+    ]),
+  )]
 }
 
 pub fn run_c09(tier: &str, seed: u64) -> Report {
@@ -1104,6 +1137,11 @@ pub fn run_c09(tier: &str, seed: u64) -> Report {
       let r = run_fast_check(&w, None, false);
       all.push((w, r, json!({"spec_file": f.to_string_lossy()}), None));
     }
+  }
+  // regression corpus: minimised inputs of repaired findings
+  for (name, w) in regression_worlds() {
+    let r = run_fast_check(&w, None, false);
+    all.push((w, r, json!({"regression": name}), None));
   }
   report.exhaustive.push(format!("closure / specifier / source-map checks on the output of all {} fast-check spec packages", files.len()));
   for (w, run, replay, pkg) in &all {
@@ -1182,6 +1220,40 @@ pub fn run_c09(tier: &str, seed: u64) -> Report {
           }
         }
       }
+      // a qualified reference `L.K` into a namespace of the package (declared here, or imported by name
+      // or as the default export of another module): the emitted namespace still has the member `K`
+      {
+        let parse_orig = |url: &str| original_text(w, url).and_then(|o| fcx::parse(url, &o).ok());
+        for (l, k) in x.qualified_refs() {
+          // where the namespace lives: (module url, namespace name in the original)
+          let home: Option<(String, String)> = if x.top_level().iter().any(|t| t.0 == l && t.1 == "namespace") {
+            Some((u.clone(), l.clone()))
+          } else {
+            x.imports().into_iter().find(|(local, from, _)| *local == l && (from.starts_with("./") || from.starts_with("../"))).and_then(|(_, from, name)| {
+              let t = resolve(u, &from)?;
+              let po = parse_orig(&t)?;
+              let xo = fcx::X { src: &po };
+              let ns = if name == "default" { xo.default_export_ident()? } else { name.clone() };
+              Some((t, ns))
+            })
+          };
+          let Some((t, ns)) = home else { continue };
+          let Some(po) = parse_orig(&t) else { continue };
+          let had = fcx::X { src: &po }.namespaces().get(&ns).map(|m| m.contains(&k)).unwrap_or(false);
+          if !had {
+            continue;
+          }
+          let has = parsed_all.iter().find(|e| e.0 == t).map(|e| fcx::X { src: &e.1 }.namespaces().get(&ns).map(|m| m.contains(&k)).unwrap_or(false)).unwrap_or(false);
+          if !has {
+            report.fail(
+              "oracle",
+              "qualified-member-dropped-from-emitted-namespace",
+              format!("{}: `{}.{}` refers to member `{}` of namespace `{}` of {}; the emitted module no longer declares it", u, l, k, k, ns, t),
+              replay.clone(),
+            );
+          }
+        }
+      }
       // imports / re-exports resolve and are exported by the counterpart
       let in_package = |t: &str| run.slots.contains_key(t);
       let mut check = |spec: &str, name: &str, what: &str, report: &mut Report| {
@@ -1235,6 +1307,10 @@ pub fn run_c09(tier: &str, seed: u64) -> Report {
       }
     }
     report.nontrivial.insert(format!("m{}/x{}", parsed_all.len().min(6), cross.min(8)));
+  }
+  {
+    let mut rr = Rng::new(seed ^ 0xC09_5EB);
+    crate::reqs::reqs_part(&mut report, &mut batch, &mut rr, if tier == "thorough" { 20000 } else { 2000 });
   }
   batch.finish(&mut report, "C09");
   report
